@@ -20,5 +20,8 @@ CHECKS = {
     "C03": {"level": E, "units": [go("TestC03", 2000, 60000)]},
     "C09": {"level": E, "units": [go("TestC09", 4000, 150000)]},
     "C08": {"level": E, "units": [go("TestC08Parser", 200000, 8000000, netns=False), go("TestC08PDR", 4000, 150000), go("TestC08PFD", 1500, 60000)]},
+    "C14": {"level": E, "units": [go("TestC14", 1500, 50000)]},
+    "C13": {"level": E, "units": [go("TestC13", 400, 15000), go("TestC13Unit", 320, 6000, netns=False)]},
+    "C07": {"level": E, "units": [go("TestC07Gen", 50000, 2000000, netns=False), go("TestC07Conc", 600, 20000, race=True, netns=False, confirm=False), go("TestC07Wire", 500, 20000)]},
     "C02": {"level": E, "units": [go("TestC02", 1600, 60000)]},
 }
